@@ -199,6 +199,9 @@ type replayInput struct {
 	// (only recorded for the history clause: the last rejected request and the
 	// request right before this one)
 	History []replayInput `json:"history,omitempty"`
+	// MultiOp: the case is run through ExecutionEngine.Execute and the menu of
+	// multi-operation documents (execute_test.go)
+	MultiOp bool `json:"multi_op,omitempty"`
 }
 
 func (c *tcase) replay() replayInput {
@@ -1315,6 +1318,15 @@ func TestCheck(t *testing.T) {
 		if err != nil {
 			t.Fatalf("replay input: %v", err)
 		}
+		if in.MultiOp {
+			re, err := newRealEngine(execSDL(c.gc.sdlE))
+			if err != nil {
+				t.Fatalf("replay: engine: %v", err)
+			}
+			defer re.close()
+			multiOpCase(run, re, c, admit(o.eng.get(c.gc.sdlE), c.gc.query, c.varsJSON(), nil))
+			return
+		}
 		for _, h := range in.History {
 			hc, err := caseFromSlots(sh.sp, h)
 			if err != nil {
@@ -1390,6 +1402,11 @@ func TestCheck(t *testing.T) {
 			pairCfg.MaxDepth, pairCfg.FarDepth, pairCfg.PairItems, pairCfg.Combos = 1, 1, false, 0
 		}
 		pairs(run, sh, o, pairCfg)
+	}
+
+	// ---- request documents with several operations, through the real ExecutionEngine.Execute
+	if !run.Expired() {
+		multiOps(run, o, spaceCfg{Ctxs: []string{"top", "field"}, MaxDepth: 1, FarDepth: 1, Budget: 0, PairItems: false})
 	}
 }
 
